@@ -15,7 +15,7 @@ from engine import symex as sx
 from engine.runner import Spec
 from engine.symex import SBool, lift_b, s_and, s_not, s_or
 
-LAYOUTS = ["single", "linear", "linear-override", "linear-shadow", "diamond", "diamond-override", "mixin"]
+LAYOUTS = ["single", "linear", "linear-override", "linear-shadow", "mixin-shadow", "diamond", "diamond-override", "mixin"]
 KINDS = ["state", "timed", "default"]
 
 
@@ -65,6 +65,13 @@ def build(c, smm, layout, n):
         cls = type("M", (base,), body)
         note(specs[1:k])
         note(specs[k:])
+    elif layout == "mixin-shadow":
+        # an ordinary (non-StateMachine) mix-in listed before the machine base redefines a state name as a non-state
+        base = type("B", (SM,), ns(specs))
+        what = c.choose("shadow_with", 3)
+        plain = type("Plain", (), {specs[0][0]: [None, 7, (lambda self: None)][what]})
+        cls = type("M", (plain, base), {})
+        note(specs[1:])
     elif layout in ("linear", "linear-override"):
         k = max(1, n // 2)
         base = type("B", (SM,), ns(specs[:k]))
@@ -252,6 +259,14 @@ def path_defs(c, job):
                 ok = isinstance(e, smm.InvalidStateName) or isinstance(e.__cause__, smm.InvalidStateName)
             c.reach("alias")
             c.prove("C12.def alias-rejected", ok, info=dict(decorator=dn))
+            # the alias made in a subclass of the class that defined the state
+            try:
+                base = type("AB", (smm.StateMachine,), {"st": mk()})
+                type("ASub", (base,), {"other": base.st})
+                ok = False
+            except Exception as e:
+                ok = isinstance(e, smm.InvalidStateName) or isinstance(e.__cause__, smm.InvalidStateName)
+            c.prove("C12.def alias-rejected", ok, info=dict(decorator=dn, where="subclass"))
             try:
                 type("NotSM", (), {"st": mk()})
                 ok = False
@@ -282,9 +297,9 @@ class C12(Spec):
 
     def jobs(self, tier):
         n = 3 if tier == "quick" else 4
-        j = [dict(kind="flags", layout=l, n=(n if l in ("single", "linear", "linear-override", "linear-shadow", "mixin") else 4 if tier != "quick" else 3)) for l in LAYOUTS]
+        j = [dict(kind="flags", layout=l, n=(n if l in ("single", "linear", "linear-override", "linear-shadow", "mixin-shadow", "mixin") else 4 if tier != "quick" else 3)) for l in LAYOUTS]
         if tier == "quick":
-            j = [dict(kind="flags", layout=l, n=3) for l in ("single", "linear", "linear-override", "linear-shadow", "mixin")] + \
+            j = [dict(kind="flags", layout=l, n=3) for l in ("single", "linear", "linear-override", "linear-shadow", "mixin-shadow", "mixin")] + \
                 [dict(kind="flags", layout=l, n=4) for l in ("diamond", "diamond-override")]
         j += [dict(kind="defs", what=w) for w in ("signatures", "names", "alias-owner")]
         return j
